@@ -131,6 +131,9 @@ struct IoBuf {
     class MemOstream *w; class MemIstream *r;
 };
 
+/* the buffer behind any Ostream / Istream subclass of this model: the pointer field right after the vptr */
+static inline IoBuf *buf_of(const void *obj) { return *(IoBuf *const *) ((const char *) obj + sizeof(void *)); }
+
 class MemOstream : public Ostream {
 public:
     IoBuf *b;
@@ -238,9 +241,8 @@ bool io_equal(IoBuf *a, IoBuf *b) { return a->len == b->len && a->nrec == b->nre
 TextModeProperties *new_TextModeProperties_blank() { return new ModelProps(); }
 void delete_TextModeProperties(TextModeProperties *ptr) { delete ptr; }
 void print_TextModeProperties_toOStream(const Ostream &F, const TextModeProperties *properties) {
-    const MemOstream &o = (const MemOstream &) F;
     const ModelProps *p = (const ModelProps *) properties;
-    IoBuf *b = o.b;
+    IoBuf *b = buf_of(&F);
     if (b->nrec >= IO_MAXREC || b->len + IO_REC_BYTES > IO_CAP) abort();
     b->rec_off[b->nrec] = b->len;
     b->rec[b->nrec] = p->r;
@@ -249,8 +251,7 @@ void print_TextModeProperties_toOStream(const Ostream &F, const TextModeProperti
     b->nrec++;
 }
 TextModeProperties *new_TextModeProperties_fromIstream(const Istream &F) {
-    const MemIstream &in = (const MemIstream &) F;
-    IoBuf *b = in.b;
+    IoBuf *b = buf_of(&F);
     ModelProps *res = new ModelProps();
     /* the parser skips everything up to the next "-----BEGIN" line: binary bytes before a record are ignored lines */
     int r = -1;
@@ -269,20 +270,28 @@ TextModeProperties *new_TextModeProperties_fromIstream(const Istream &F) {
     b->pos = b->rec_off[r] + IO_REC_BYTES;
     return res;
 }
-COstream to_Ostream(FILE *F) { abort(); return COstream(F); }
-StdOstream to_Ostream(std::ostream &out) { abort(); return StdOstream(out); }
-CIstream to_Istream(FILE *F) { abort(); return CIstream(F); }
-StdIstream to_Istream(std::istream &in) { abort(); return StdIstream(in); }
+/* the four transport classes of tfhe_generic_streams.h over the same buffer: a FILE* / std::ostream& / std::istream& handed to the
+   EXPORTed API is an IoBuf in disguise (io_file / io_ostream / io_istream below) */
+static void buf_write(IoBuf *b, const void *data, size_t bytes) { MemOstream o(b); o.fwrite(data, bytes); }
+static void buf_read(IoBuf *b, void *data, size_t bytes, bool cxx) { b->cxx = cxx; MemIstream i(b); i.fread(data, bytes); }
+COstream to_Ostream(FILE *F) { return COstream(F); }
+StdOstream to_Ostream(std::ostream &out) { return StdOstream(out); }
+CIstream to_Istream(FILE *F) { return CIstream(F); }
+StdIstream to_Istream(std::istream &in) { return StdIstream(in); }
 void CIstream::getLine(std::string &) const { abort(); }
-void CIstream::fread(void *, size_t) const { abort(); }
-bool CIstream::feof() const { abort(); return true; }
+void CIstream::fread(void *data, size_t bytes) const { buf_read((IoBuf *) F, data, bytes, false); }
+bool CIstream::feof() const { IoBuf *b = (IoBuf *) F; return b->pos >= b->limit; }
 void StdIstream::getLine(std::string &) const { abort(); }
-void StdIstream::fread(void *, size_t) const { abort(); }
-bool StdIstream::feof() const { abort(); return true; }
+void StdIstream::fread(void *data, size_t bytes) const { buf_read((IoBuf *) &in, data, bytes, true); }
+bool StdIstream::feof() const { IoBuf *b = (IoBuf *) &in; return b->failed || b->pos >= b->limit; }
 void COstream::fputs(const std::string &) const { abort(); }
-void COstream::fwrite(const void *, size_t) const { abort(); }
+void COstream::fwrite(const void *data, size_t bytes) const { buf_write((IoBuf *) F, data, bytes); }
 void StdOstream::fputs(const std::string &) const { abort(); }
-void StdOstream::fwrite(const void *, size_t) const { abort(); }
+void StdOstream::fwrite(const void *data, size_t bytes) const { buf_write((IoBuf *) &out, data, bytes); }
+FILE *io_file(IoBuf *b) { return (FILE *) b; }
+std::ostream &io_ostream(IoBuf *b) { return *(std::ostream *) b; }
+std::istream &io_istream(IoBuf *b) { return *(std::istream *) b; }
+void io_open_read(IoBuf *b, bool cxx) { b->pos = 0; b->limit = b->len; b->cut_lo = b->len; b->cxx = cxx; b->failed = false; }
 
 #else
 /* =============================================================== native side: the real text layer and transports */
@@ -334,8 +343,10 @@ bool io_region_is_text(IoBuf *b, int R) { size_t lo = 0, hi = 0; bool t = false;
 const Istream &io_reader_region(IoBuf *b, int R, size_t d, bool cxx) {
     size_t lo = 0, hi = 0; bool t = false;
     nat_regions(b->out.str(), R, &lo, &hi, &t);
-    size_t len = hi > lo ? hi - lo : 1;
-    /* inside a text section every byte offset is a real crash point: the symbolic d picks one */
+    /* inside a text section every byte offset is a real crash point: the symbolic d picks one. The single prefix that lacks
+       only the trailing newline of the section still contains the complete section (getline returns the END line at EOF), so
+       it is not a truncated object: excluded (hi - 1 is the newline) */
+    size_t len = hi > lo + (t ? 1 : 0) ? hi - lo - (t ? 1 : 0) : 1;
     return io_reader(b, lo + (d % len), cxx);
 }
 bool io_failed(IoBuf *b) { return b->cxx ? (b->in && !*b->in) : false; }
@@ -344,13 +355,22 @@ size_t io_consumed(IoBuf *b) { if (b->cxx) { if (!b->in || !*b->in) return io_si
 size_t io_binary_bytes(IoBuf *b) { return 0; }
 int io_records(IoBuf *b) { std::string s = b->out.str(); int n = 0; size_t p = 0; while ((p = s.find("-----BEGIN ", p)) != std::string::npos) { n++; p++; } return n; }
 void io_watch(IoBuf *b, const void *q, size_t m) { b->watch_q = (const uint8_t *) q; b->watch_m = m; }
-bool io_watch_hit(IoBuf *b) {
-    /* natively: does the exported byte string contain the watched bytes verbatim? */
-    std::string s = b->out.str();
-    if (!b->watch_q || b->watch_m == 0 || s.size() < b->watch_m) return false;
-    for (size_t i = 0; i + b->watch_m <= s.size(); i++) if (memcmp(s.data() + i, b->watch_q, b->watch_m) == 0) return true;
-    return false;
+bool io_watch_hit(IoBuf *b) { return false; }   /* "which addresses were read" has no native counterpart (a substring search gives chance hits on keys like {0,0}) */
+/* natively the EXPORTed API gets real handles: a FILE* opened on a memory stream / the string stream itself */
+static char *g_fbuf[8]; static size_t g_flen[8]; static FILE *g_f[8]; static IoBuf *g_fb[8]; static int g_nf = 0;
+static void io_sync(IoBuf *b) {   /* fold what was written through a FILE* into the string stream */
+    for (int i = 0; i < g_nf; i++) if (g_fb[i] == b && g_f[i]) { fflush(g_f[i]); b->out.write(g_fbuf[i], g_flen[i]); fclose(g_f[i]); g_f[i] = 0; free(g_fbuf[i]); }
 }
-bool io_is_prefix(IoBuf *a, IoBuf *b) { std::string x = a->out.str(), y = b->out.str(); return x.size() <= y.size() && y.compare(0, x.size(), x) == 0; }
-bool io_equal(IoBuf *a, IoBuf *b) { return a->out.str() == b->out.str(); }
+FILE *io_file(IoBuf *b) {
+    if (b->f) return b->f;                       /* opened for reading */
+    for (int i = 0; i < g_nf; i++) if (g_fb[i] == b && g_f[i]) return g_f[i];
+    int i = g_nf++ % 8;
+    g_fb[i] = b; g_f[i] = open_memstream(&g_fbuf[i], &g_flen[i]);
+    return g_f[i];
+}
+std::ostream &io_ostream(IoBuf *b) { return b->out; }
+std::istream &io_istream(IoBuf *b) { return *b->in; }
+void io_open_read(IoBuf *b, bool cxx) { io_sync(b); io_reader(b, io_size(b), cxx); }
+bool io_is_prefix(IoBuf *a, IoBuf *b) { io_sync(a); io_sync(b); std::string x = a->out.str(), y = b->out.str(); return x.size() <= y.size() && y.compare(0, x.size(), x) == 0; }
+bool io_equal(IoBuf *a, IoBuf *b) { io_sync(a); io_sync(b); return a->out.str() == b->out.str(); }
 #endif
